@@ -115,12 +115,17 @@ static void sweep(uint64_t in_id, size_t len, int reduced, int big)
 								continue;
 							int nlb = level ? (v_thorough && !reduced && !big ? 5 : 2) : 1;
 							for (int lb = 0; lb < nlb; lb++)
-								for (int api = 0; api < 3; api++) {
+								for (int apix = 0; apix < 4; apix++) {
+									/* apix 3: all input offered at once, output drained 3 bytes at a time (headers, stored blocks and
+									 * flush markers all pass through the codec's small pending-output buffers) */
+									int api = apix == 3 ? API_CHUNKED : apix;
+									if (apix == 3 && (big || reduced))
+										continue;
 									if (api == API_STATELESS && flush == SYNC_FLUSH)
 										continue;
 									if (nfail > 40 || v_deadline_hit())
 										return;
-									struct cparams p = { level, flush, gz, hb[hi], huff, lb, api, 97, 61 };
+									struct cparams p = { level, flush, gz, hb[hi], huff, lb, api, apix == 3 ? 1 << 20 : 97, apix == 3 ? 3 : 61 };
 									if (big == 2 && api == API_ONECALL)
 										continue;
 									if (big && api == API_CHUNKED) {
